@@ -2,8 +2,9 @@
    doc    := N name M n {key value} D n {node}           (node / value grammar as in rep_main.ml)
    project <mode> doc            -> <lossy> O n {str} doc
    dict <cli:0|1> doc            -> jv           jv := z|b0|b1|i..|f..|s..|L n {jv}|M n {key jv}|H raw|Z c t f
-   md T n {raw text} doc         -> markdown text (enc)
-   mdpairs T n {raw text} doc    -> k|text;k|text...
+   md doc                        -> markdown text (enc)
+   mdpairs doc                   -> k|text;k|text...
+   native <cli:0|1> doc          -> 0|1   (dict tree holds only dict/list/str/number/bool/None)
    items doc | ditems <cli> doc  -> item item ...        item := step/step/...=cell   (root path is ".")
    wf doc                        -> 0|1 *)
 exception Bad of string
@@ -45,7 +46,6 @@ let doc () : doc =
   let meta = many n (fun () -> let k = str () in let v = value () in (k, v)) in
   expect "D"; let m = count () in
   { d_name = name; d_meta = meta; d_sections = many m node }
-let tbl () = expect "T"; let n = count () in many n (fun () -> let k = str () in let v = str () in (k, v))
 
 let po = function None -> "~" | Some s -> tok_of_str s
 let rec pv = function
@@ -106,9 +106,11 @@ let handle l =
       let cli = tok_bool (next ()) in
       let d = doc () in
       pj (JMap (if cli then cli_ast_to_dict d else ast_to_dict d))
-    | "md" -> let t = tbl () in let d = doc () in tok_of_str (markdown_tbl t d)
-    | "mdpairs" -> let t = tbl () in let d = doc () in
-      String.concat ";" (List.map (fun (k, v) -> tok_of_str k ^ "|" ^ tok_of_str v) (md_pairs_tbl t d))
+    | "md" -> let d = doc () in tok_of_str (markdown d)
+    | "mdpairs" -> let d = doc () in
+      String.concat ";" (List.map (fun (k, v) -> tok_of_str k ^ "|" ^ tok_of_str v) (md_pairs_doc d))
+    | "native" -> let cli = tok_bool (next ()) in let d = doc () in
+      bool_tok (native_dict (if cli then cli_ast_to_dict d else ast_to_dict d))
     | "items" -> pitems (items_doc (doc ()))
     | "ditems" -> let cli = tok_bool (next ()) in let d = doc () in
       pitems (items_dict (if cli then cli_ast_to_dict d else ast_to_dict d))
